@@ -4,7 +4,7 @@ from typing import List, Optional, Dict, Tuple
 
 from ..core import Index, FuncDef, ClassDef, Def, External, AnalysisError, unparse, dotted_name, walk_own
 from ..fold import Folder, Record, EnumMember, Ref, is_unknown, tuple_record_elements, single_return_expr
-from ..absint import Interp, Hooks, State, Event, K, Sym
+from ..absint import Interp, Hooks, State, Event, K, Sym, NONE
 from ..report import Check
 
 
@@ -165,3 +165,46 @@ def run_factory(c: Check, func_path: str, *const_args):
         raise AnalysisError('factory %s does not return one constant record for constant arguments (%s)' % (
             func_path, [util.describe(v) for v in vals]))
     return vals[0].v
+
+
+def check_first_error_wins(c: Check, rule: str, fd: FuncDef, is_elem_call, iter_attr: Optional[str] = None,
+                           min_paths: int = 4) -> None:
+    """FOLD "first non-None wins": the function loops over a sequence, calls an optional-error function per
+    element (is_elem_call(callee_def, call_node, callee_value)), returns the first non-None result at once and
+    None when every element succeeded; elements are visited in sequence order."""
+    from .. import util
+    hooks = ForkHooks(c.ix, loop_bound=2)
+    hooks.fork_on(is_elem_call, [('none', lambda: NONE),
+                                 ('err', lambda: Sym('error', nullness=False, origin=('elem-error',)))])
+    paths = util.func_paths(c.ix, c.fo, fd, hooks)
+    c.count(len(paths))
+    n_with_calls = 0
+    for p in paths:
+        labs = labels_of(p)
+        if labs:
+            n_with_calls += 1
+        key = '%s/path/%s' % (fd.key.split(':')[-1], '-'.join(labs) or 'empty')
+        if 'err' in labs:
+            halted = labs.index('err') == len(labs) - 1
+            v = p.val if p.kind == 'return' else None
+            same = isinstance(v, Sym) and getattr(util.root_sym(v), 'label', None) == 'err'
+            wrapped = False
+            if not same and v is not None:
+                con = util.constructed(c.ix, v)
+                if con is not None:
+                    wrapped = any(getattr(util.root_sym(util.attr_chain(a)[0]), 'label', None) == 'err'
+                                  or getattr(util.root_sym(a), 'label', None) == 'err' for a in con[3].values())
+            c.expect(halted and (same or wrapped), rule, key,
+                     'after an element reported an error: further elements checked=%s, returned %s' % (
+                         not halted, util.describe(v) if v is not None else p.kind), fd.loc())
+        else:
+            ok = p.kind == 'return' and isinstance(p.val, K) and p.val.v is None
+            c.expect(ok, rule, key, 'no element reported an error but the result is %s' % (
+                util.describe(p.val) if p.kind == 'return' else p.kind), fd.loc())
+    c.floor(rule, 'paths with element checks in ' + fd.key, n_with_calls, min_paths)
+    loops = [n for n in walk_own(fd.node) if isinstance(n, ast.For)]
+    for lp in loops:
+        it = lp.iter
+        plain = isinstance(it, (ast.Name, ast.Attribute))
+        c.expect(plain, rule, fd.key.split(':')[-1] + '/iterates-in-order',
+                 'the loop iterates %s, not the sequence in its own order' % unparse(it), fd.loc())
